@@ -396,3 +396,28 @@ Definition chk_C04 (c o : value) : bool :=
       end
   | _ => true
   end.
+
+(* ------------------------------------------------------------------ family "socknet": the case of family sock run over a
+   real loopback connection; what the client receives is what the model wrote to the transport before the close *)
+Definition run_socknet (c : value) : value :=
+  let l := dec_log (run_sock c) in
+  if existsb is_bad l then verr
+  else VL [VB (wire_of l); vbool (existsb is_close l)].
+
+(* C19 / C03 on what the client saw.  meta ::= (19 complete): complete = 1 when the application certainly wrote a complete
+   response and closed.  Then the client receives that response whole - status line, headers, a body of the announced
+   length - and sees the connection shut; whatever the application calls afterwards. *)
+Definition chk_C19_net (c o : value) : bool :=
+  match c, o with
+  | VL [_; _; _; VL [VI 19; VI complete]], VL [VB got; VI closed] =>
+      if as_bool complete then
+        as_bool closed &&
+        match parse_wire got with
+        | Some (_, _, hs, body) =>
+            match content_length_of hs with Some cl => beq cl (number (blen body)) | None => true end
+        | None => false
+        end
+      else true
+  | VL [_; _; _; VL [VI 19; VI _]], _ => false
+  | _, _ => true
+  end.
